@@ -595,6 +595,7 @@ class TextNmea2000Gateway(AsyncIOClient):
         self.port = port
         self.type = type    
         self.lock = asyncio.Lock()
+        self._in_overlong_line = False
 
     async def _connect_impl(self):
         """Connect to the TCP server.
@@ -605,6 +606,7 @@ class TextNmea2000Gateway(AsyncIOClient):
         """
         self.logger.info(f"Connecting to {self.host}:{self.port}")
         self.reader, self.writer = await asyncio.open_connection(self.host, self.port)
+        self._in_overlong_line = False
         # Get the underlying socket
         sock = self.writer.get_extra_info("socket")
         if sock:
@@ -622,11 +624,21 @@ class TextNmea2000Gateway(AsyncIOClient):
         by the _receive_loop() method.
         """
         try:
-            data = await self.reader.readline()
-        except ValueError as e:
-            # a line longer than the stream's limit: the reader has dropped it, the link itself is fine
+            data = await self.reader.readuntil(b'\n')
+        except asyncio.IncompleteReadError as e:
+            data = e.partial
+        except asyncio.LimitOverrunError as e:
+            # a line longer than the stream's limit: the link itself is fine. Drop what has arrived of the line and
+            # remember that what is still to come of it, up to its line end, is not a line of its own
             self.logger.warning(f"Skipping overlong line. Error: {e}")
+            await self.reader.readexactly(e.consumed)
+            self._in_overlong_line = True
             return
+        if self._in_overlong_line:
+            # the rest of an overlong line
+            self._in_overlong_line = False
+            if data.endswith(b'\n'):
+                return
         if not data:
             # end of stream: readline() returns b'' immediately from now on
             raise ConnectionError("Connection closed by the gateway")
